@@ -254,6 +254,19 @@ class Interp:
                     return self.modconsts[ck]  # one object per interpreter: module-level state persists across calls
         return _MISSING
 
+    def resolve_imported_constant(self, name: str):
+        """`from <repo module> import NAME` where NAME is a module-level value there (a Literal type, a table)."""
+        m = self.cur()
+        tgt = m.imports.get(name) if m is not None else None
+        if tgt and "." in tgt:
+            modname, nm = tgt.rsplit(".", 1)
+            if modname in self.repo.modules and modname != LNODES:
+                try:
+                    return self.module_value(modname, nm)
+                except AnalysisError:
+                    return _MISSING
+        return _MISSING
+
     def module_value(self, modname: str, name: str):
         """Value of a module-level container of a repository module after module initialisation (see resolve_constant)."""
         self.ctx.append(self.repo.mod(modname))
@@ -866,6 +879,9 @@ class Interp:
             mc = self.resolve_constant(e.id)
             if mc is not _MISSING:
                 return mc
+            mc = self.resolve_imported_constant(e.id)
+            if mc is not _MISSING:
+                return mc
             nt = self.resolve_record(e.id)
             if nt is not None:
                 return nt
@@ -1082,6 +1098,9 @@ class Interp:
             except TypeError:
                 raise AnalysisError("absint: set display of unhashable values")
         if isinstance(e, ast.Subscript):
+            if dotted(e.value) in ("Literal", "typing.Literal") and dotted(e.value) not in env:
+                sl = e.slice.elts if isinstance(e.slice, ast.Tuple) else [e.slice]
+                return _TypingLiteral(tuple(self.expr(x, env) for x in sl))
             base = self.expr(e.value, env)
             if isinstance(e.slice, ast.Slice):
                 lo = self.expr(e.slice.lower, env) if e.slice.lower else None
@@ -1277,6 +1296,13 @@ class Interp:
             for v_ in vals:
                 out_.extend(self.iterate(v_))
             return out_
+        if fn in ("itertools.product", "product") and fn not in self.overrides and not kw.get("repeat"):
+            import itertools as _it
+            return [tuple(t) for t in _it.product(*[self.iterate(v_) for v_ in vals])]
+        if fn in ("typing.get_args", "get_args") and len(vals) == 1 and isinstance(vals[0], _TypingLiteral):
+            return tuple(vals[0].args)
+        if fn in ("typing.cast", "cast") and len(vals) == 2 and fn not in self.overrides:
+            return vals[1]
         if fn in ("itertools.chain.from_iterable", "chain.from_iterable") and len(vals) == 1:
             out_ = []
             for v_ in self.iterate(vals[0]):
@@ -1474,7 +1500,12 @@ class Interp:
                 return f.fn(*vals, **kw)
             except (Raised, AnalysisError):
                 raise
+            except NotImplementedError as ex:
+                raise AnalysisError(f"absint: library model does not cover this call: {str(ex)[:80]}")
             except (TypeError, ValueError, KeyError, IndexError, ZeroDivisionError, AttributeError) as ex:
+                if isinstance(ex, TypeError) and any(t_ in str(ex) for t_ in ("unexpected keyword argument", "positional argument", "required keyword")):
+                    # the *stand-in's* signature does not cover the call - a gap of the model, not a rejection by the library
+                    raise AnalysisError(f"absint: library model called with an unsupported signature: {str(ex)[:90]}")
                 # the modelled library function rejects these arguments, as the real one would
                 raise Raised(f"{type(ex).__name__}: {str(ex)[:60]}")
         if isinstance(f, _Closure):
@@ -1728,6 +1759,22 @@ def _local_names(fnode) -> frozenset:
     res_ = frozenset(out - outer)
     _LOCALS_CACHE[k] = (fnode, res_)
     return res_
+
+
+class _TypingLiteral:
+    """typing.Literal[...]: a type whose only run-time use is typing.get_args"""
+
+    def __init__(self, args):
+        self.args = tuple(args)
+
+    def __repr__(self):
+        return f"Literal{list(self.args)}"
+
+    def __eq__(self, o):
+        return isinstance(o, _TypingLiteral) and o.args == self.args
+
+    def __hash__(self):
+        return hash(self.args)
 
 
 class _Super:
